@@ -151,3 +151,33 @@ Proof.
 (* merge of identical operand types is the operand type (Maximum / Concatenate) *)
 Theorem merge_max_same a : merge_max [a; a] = a.
 Proof. unfold merge_max, forallb, same_type. rewrite !Z.eqb_refl, Bool.eqb_reflx. reflexivity. Qed.
+
+(* ---- merge Add: where it IS sound.  For two fixed-point operands with the same number of integer bits and the same
+   signedness the reported type is exactly the fixed-point adder's (nothing is dropped), so it holds every sum ---- *)
+Theorem merge_add_same_int_is_fixed_adder a b :
+  q_fp a = false -> q_fp b = false -> q_po2 a = false -> q_po2 b = false ->
+  q_int a = q_int b -> q_sgn a = q_sgn b -> 0 <= q_bits a -> 0 <= q_bits b -> 0 <= q_int a ->
+  merge_add [a; b] = fixed_adder a b.
+Proof.
+  intros Fa Fb Pa Pb I S Ba Bb Ia.
+  unfold merge_add, merge_scan. cbn [fold_left]. rewrite Fa, Fb. unfold as_qbits. rewrite Pa, Pb. cbv zeta.
+  unfold fixed_adder, frac_bits, set_bits, set_sgn, set_int, mkQuantizedBits. cbn [q_mode q_bits q_int q_sgn q_fp q_po2 q_maxv q_name q_use01 orb].
+  rewrite <- S, <- I. rewrite orb_diag. f_equal; destruct (q_sgn a); cbn [b2z]; lia.
+Qed.
+Theorem merge_add_same_int_holds_sum a b ka kb :
+  q_fp a = false -> q_fp b = false -> q_po2 a = false -> q_po2 b = false ->
+  q_int a = q_int b -> q_sgn a = q_sgn b -> 0 <= q_bits a -> 0 <= q_bits b -> 0 <= q_int a ->
+  0 <= mag_bits a -> 0 <= mag_bits b -> code_ok a ka -> code_ok b kb ->
+  let o := merge_add [a; b] in
+  frac_bits o = Z.max (frac_bits a) (frac_bits b) /\
+  code_ok o (ka * 2 ^ (frac_bits o - frac_bits a) + kb * 2 ^ (frac_bits o - frac_bits b)).
+Proof.
+  intros Fa Fb Pa Pb I S Ba Bb Ia Ma Mb Ka Kb o. unfold o.
+  rewrite (merge_add_same_int_is_fixed_adder a b) by assumption.
+  split; [apply fixed_adder_frac_finest|]. apply fixed_adder_holds_sum; assumption.
+Qed.
+Example merge_add_same_int_nonvacuous :
+  let a := set_sgn (set_int (set_bits mkQuantizedBits 6) 2) true in
+  let b := set_sgn (set_int (set_bits mkQuantizedBits 4) 2) true in
+  merge_add [a; b] = fixed_adder a b /\ frac_bits (merge_add [a; b]) = 3 /\ q_int (merge_add [a; b]) = 3 /\ q_bits (merge_add [a; b]) = 7.
+Proof. vm_compute. repeat split; reflexivity. Qed.
